@@ -21,14 +21,20 @@ METHODS = ('fixed-point', 'newton', 'linear')
 
 
 def grads_of(g, a, table, proj):
+    """gradient per factor entry; entries of a patterned weight tensor that are not physically backed are
+    not parameters (PatternedTensor.grad marks them nan by design): they get the vacuous interval"""
+    import torch
+    from fggs.indices import PatternedTensor
     out = {}
     for t in AG.terms_of(a):
-        gr = g.factors[t].weights.grad
+        w = g.factors[t].weights
+        gr = w.grad
         n = len(a[table][t])
         if gr is None:
             out[t] = [[ABSENT, ABSENT]] * n
         else:
-            out[t] = [proj(float(x)) for x in gr.to_dense().reshape(-1).tolist()]
+            backed = PatternedTensor(torch.ones_like(w.physical), w.paxes, w.vaxes, 0.).to_dense().reshape(-1).tolist()
+            out[t] = [proj(float(x)) if b else [NINF, INF] for x, b in zip(gr.to_dense().reshape(-1).tolist(), backed)]
     return out
 
 
@@ -89,7 +95,7 @@ def drive_fx(args):
     rng = rng_for(seed, f'c03f-{i}')
     linear = i % 2 == 0
     dead = i % 3 == 1
-    a = AG.gen_fx_recursive(rng, linear=linear and not dead, max_q=0.8, dead=dead, scalar_start=dead or i % 3 == 2)
+    a = AG.gen_fx_recursive(rng, linear=linear and not dead, max_q=0.8, dead=dead, scalar_start=dead or i % 3 == 2, patterned=(i % 4 == 2))
     n = AG.numel(AG.shape_of(a, a['start']))
     cot = [rng.choice([1, 1, 2, 0]) for _ in range(n)] if n > 1 else [1]
     runs = []
